@@ -31,3 +31,14 @@ func VerifEmitter(t Transport) event.Emitter {
 	}
 	return nil
 }
+
+// VerifAccessoryIDs returns the ids of the accessories the ip transport serves, in the order of its container.
+func VerifAccessoryIDs(t Transport) []uint64 {
+	var ids []uint64
+	if ip, ok := t.(*ipTransport); ok {
+		for _, a := range ip.container.Accessories {
+			ids = append(ids, a.ID)
+		}
+	}
+	return ids
+}
